@@ -16,6 +16,7 @@ RULE = ("every valid metric class (and the obsfcst table) x a random axis (all 1
         "(audit hook). signature = (metric, axis, type, -f?, -leg?, -acc?, #inputs); non-trivial = >= 2 rows and >= 2 "
         "columns, not all NaN.")
 RULE += " " + "Duplicate -leg names and identical file names in different directories occur (each column must still carry its own file's scores)."
+RULE += " " + 'obsfcst quantile columns; thresholds in the order given; shards rotate the process time zone.'
 ASSUMPTIONS = ["a mismatch of one unit in the last printed digit is excused (decimal rounding at the formatting boundary)"]
 REQUIRED_COUNTERS = ["tables", "values_compared", "descriptors_compared", "file_vs_stdout", "acc_tables", "refcli_tables", "audit_open_write"]
 ROTATE_TZ = True       # dates, times of day and time labels are UTC whatever the time zone of the machine
